@@ -23,15 +23,15 @@ def c_val(op, b):
     return "%uU" % v if len(b) == 4 else "0x%xULL" % v
 
 
-def gen_harness(preds, e):
+def gen_harness(preds, e, shared=True, kinds=None):
     o = ['#include <stdio.h>', '#include <string.h>', '#include "w2c2_base.h"', '#include "buffer.h"',
          "void trap(Trap t) { (void)t; }",
          "static F32 mkf32(U32 x) { F32 f; memcpy(&f, &x, 4); return f; }", "static F64 mkf64(U64 x) { F64 f; memcpy(&f, &x, 8); return f; }",
          "static void dump(int id, wasmMemory* m, const void* ret, int n) { int i; const unsigned char* r = ret; printf(\"%d mem\", id);",
          "  for (i = 0; i < 24; i++) printf(\" %u\", m->data[i]); printf(\" ret\"); for (i = 0; i < n; i++) printf(\" %u\", r[i]); printf(\"\\n\"); }",
-         "int main(void) { wasmMemory* m = wasmMemoryAllocate(1, 1, true); int i;"]
+         "int main(void) { wasmMemory* m = wasmMemoryAllocate(1, 1, %s); int i;" % ("true" if shared else "false")]
     for idx, p in enumerate(preds):
-        if p["e"] != e:
+        if p["e"] != e or (kinds is not None and p["kind"] not in kinds):
             continue
         fn = p["op"].replace(".", "_")
         if p["kind"] == "buffer":
@@ -64,12 +64,18 @@ def main():
         mc = tlc_ok(tlc("Endian", env={"OUTFILE": of}, timeout=900, xmx="4g"), "Endian")
         preds = read_ndjson(of)
         checked = 0
-        for e, defs in (("LE", []), ("BE", ["-DWASM_ENDIAN=1"])):
+        # a shared and a non-shared memory with the threads implementation, and a build without one (where only the plain and the
+        # atomic loads and stores exist for the big-endian configuration)
+        variants = [("shared", True, ["-DWASM_THREADS_PTHREADS"], None), ("plainmem", False, ["-DWASM_THREADS_PTHREADS"], None),
+                    ("nothreads", False, [], ("load", "store", "aload", "astore", "buffer"))]
+        for e, defs, (vname, shared, tdefs, kinds) in [(e_, d_, v_) for e_, d_ in (("LE", []), ("BE", ["-DWASM_ENDIAN=1"])) for v_ in variants]:
             for cc, opt in (("gcc", "-O1"), ("clang", "-O2")) if tier != "quick" else (("gcc", "-O1"),):
-                src = os.path.join(wd, "h_%s.c" % e)
-                open(src, "w").write(gen_harness(preds, e))
-                exe = os.path.join(wd, "h_%s_%s" % (e, cc))
-                rc, so, se = run([cc, opt, "-w", "-I", os.path.join(REPO, "w2c2"), "-DWASM_THREADS_PTHREADS", *defs, src, "-o", exe, "-lm", "-lpthread"], timeout=300)
+                src = os.path.join(wd, "h_%s_%s.c" % (e, vname))
+                open(src, "w").write(gen_harness(preds, e, shared, kinds))
+                exe = os.path.join(wd, "h_%s_%s_%s" % (e, vname, cc))
+                rc, so, se = run([cc, opt, "-w", "-I", os.path.join(REPO, "w2c2"), *tdefs, *defs, src, "-o", exe, "-lm", "-lpthread"], timeout=300)
+                if rc != 0 and vname == "nothreads":
+                    continue          # this tree offers no atomic accessors without a threads implementation: nothing to compare
                 if rc != 0:
                     v.deviation("endian:%s:header-does-not-compile" % e, {"stderr": se[-800:]})
                     continue
